@@ -175,10 +175,14 @@ Definition paths_corr (gs : gstate) (ps : list string) : bool :=
   | Panic _ => match ps with [p] => starts_with "PANIC" p | _ => false end
   end.
 
-(* one search result as the harness prints it: rank|key|line|root|search text *)
-Definition sp_str (p : spath) : string :=
+(* one search result as the harness prints it: rank|key|line|root|search text|texts of the chain.
+   The chain (what a client is shown as the container of the hit) is part of the observation since
+   round 5: two entries that agree in everything but their chain (`# a` > `# b` and `# a b` over the
+   same note) are told apart, so their ORDER is observed. *)
+Definition sp_str (a : arena) (p : spath) : string :=
   dec (sp_rank p) +++ "|" +++ sp_key p +++ "|" +++ dec (sp_line p) +++ "|" +++
-  (if sp_root p then "true" else "false") +++ "|" +++ sp_text p.
+  (if sp_root p then "true" else "false") +++ "|" +++ sp_text p +++ "|" +++
+  match texts_of a (sp_ids p) with Ok ts => join " > " ts | Panic _ => "?" end.
 
 (* Database::global_search("") on the threaded state: Graph::search_paths (graph.rs:74-98), every
    fuzzy score 0, the comparator of database.rs:57-69, the first 100 *)
@@ -188,7 +192,7 @@ Definition model_search (gs : gstate) : res (list spath) :=
 
 Definition search_corr (gs : gstate) (obs : list string) : bool :=
   match model_search gs with
-  | Ok l => strs_eqb_l (map sp_str l) obs
+  | Ok l => strs_eqb_l (map (sp_str (gr_arena (gs_graph gs))) l) obs
   | Panic _ => match obs with [p] => starts_with "PANIC" p | _ => false end
   end.
 
